@@ -233,6 +233,56 @@ def check_fn(rep, S, m, t, oid):
     rep.ob(oid + '#nocancel', 'R05.nocancel', HOLDS if cancelled == 0 else VIOLATED,
            '' if cancelled == 0 else '%d monomial(s) cancel during expansion: the implementation is not a plain signed sum of products' % cancelled, where, nontrivial=False)
 
+def check_mixed_wide(rep, ws):
+    """double vector times float matrix (all spellings, Vec2/3/4 against Matrix33/44): the result has the vector's type, so no
+    value on the way to a result component is rounded to float (an fptrunc would cut the product to 24 bits), and each
+    component is the textbook sum over the reals"""
+    tu = TU('c05_mixedwide')
+    specs = []
+    for vn, d, homog in ((3, 4, True), (3, 3, False), (2, 3, True), (4, 4, False)):
+        V = 'Vec%d<double>' % vn; M = 'Matrix%d%d<float>' % (d, d)
+        full = (vn == d)
+        tu.add('w_vm_%d_%d' % (vn, d), '%s& o, const %s& v, const %s& m' % (V, V, M), 'o = v * m;', vn=vn, d=d, homog=homog and not full)
+        tu.add('w_vmassign_%d_%d' % (vn, d), '%s& v, const %s& m' % (V, M), 'v *= m;', vn=vn, d=d, homog=homog and not full, inplace=True)
+        if not full:
+            tu.add('w_multVec_%d_%d' % (vn, d), '%s& o, const %s& v, const %s& m' % (V, V, M), 'm.multVecMatrix(v, o);', vn=vn, d=d, homog=True)
+            tu.add('w_multDir_%d_%d' % (vn, d), '%s& o, const %s& v, const %s& m' % (V, V, M), 'm.multDirMatrix(v, o);', vn=vn, d=d, homog=False, dironly=True)
+    try:
+        mod = ws.module(tu.name, tu.source(), opaque=())
+    except build.BuildError as e:
+        rep.ob('mixed-type products (double x float)', 'R05.def', UNDECIDED, str(e)[:300]); return
+    I = vg.Interp(mod)
+    for name, m in tu.meta.items():
+        oid = '%s<double x float>' % name[2:]
+        try:
+            S = I.run(name)
+            where = fn_where(S.fn)
+            vn, d = m['vn'], m['d']; vb, mb = ('a0', 'a1') if m.get('inplace') else ('a1', 'a2')
+            bad = None
+            for j in range(vn):
+                o = S.out('a0', 8 * j, 8, 'double')
+                hit = None; seen = set(); st = [o]
+                while st and hit is None:
+                    x = st.pop()
+                    if x.id in seen: continue
+                    seen.add(x.id); st.extend(x.args)
+                    if x.op == 'fptrunc': hit = x
+                if hit is not None:
+                    bad = 'component %d passes through a conversion to float (%s): the double result keeps 24 significant bits' % (j, T.show(hit, 3)[:100]); break
+                ctx = P.Ctx()
+                got = ctx.rat(o)
+                vin = [T.inp(vb, 8 * i, 8, 'double') for i in range(vn)]
+                def col(c):
+                    w = {}
+                    for k in range(vn): w = P.padd(w, P.pmul(P.patom(ctx.key(vin[k])), P.patom(ctx.key(T.inp(mb, 4 * (k * d + c), 4, 'float')))))
+                    if vn < d and not m.get('dironly'): w = P.padd(w, P.patom(ctx.key(T.inp(mb, 4 * (vn * d + c), 4, 'float'))))
+                    return w
+                want = (col(j), col(vn) if m['homog'] else P.pconst(1))
+                if not ctx.requal(got, want): bad = 'component %d is %s, not the definition' % (j, P.show_rat(got, ctx)[:100]); break
+            rep.ob(oid, 'R05.def', VIOLATED if bad else HOLDS, bad or 'textbook sums, computed without any conversion to float', where)
+        except (vg.Unsupported, P.NotPoly) as e:
+            rep.ob(oid, 'R05.def', UNDECIDED, repr(e)[:300])
+
 def check_mixed(rep, ws):
     """vector of one element type times a matrix of another (integer vector, float matrix): the sums of products are formed in
     the common type from the converted vector components and rounded to the vector's type once, at the end"""
@@ -300,6 +350,7 @@ def main(rep, ws, tier):
             check_fn(rep, S, m, t, oid)
             fams.setdefault((m['fam'], t), []).append(oid)
     check_mixed(rep, ws)
+    check_mixed_wide(rep, ws)
     # R05.spell: spellings of one family all proved equal to the same definition
     status = {o['id']: o['status'] for o in rep.obs if o['rule'] == 'R05.def'}
     for (fam, t), oids in sorted(fams.items()):
